@@ -48,6 +48,8 @@ inductive Cmd (S : Type) where
   | dense (l : String) (inp out : Nat) (act : Act) (w b : List S)
   | convl (l : String) (f d r c sr sc : Nat) (act : Act) (w b : List S)
   | lfwd (w l a : String)
+  /-- `stop_tracking()` / `start_tracking()` on the parameters of a layer (`which`: 0 first, 1 second, 2 both) -/
+  | lflag (l : String) (which : Nat) (tr : Bool)
   | model (m : String) (cost : Cost) (lr : S) (layers : List String)
   | fwd (w m a : String) | bwd (m t : String) | update (m : String) | params (m : String)
   | ifgt (v : String) (c : S) (n : Nat)
@@ -327,6 +329,16 @@ def exec (σ : State S) (c : Cmd S) : R (State S × Out S) :=
     let (σ2, bh) := hLeaf σ1 bt
     let tr := fun (h : Handle) => ({ h with tracked := true, keep := true } : Handle)
     pure ({ σ2 with layers := insert σ2.layers l (.conv (tr wh) (tr bh) sr sc act) }, .ok)
+  | .lflag l which tr =>
+    match lookup σ.layers l with
+    | some lay =>
+      match layerParams lay with
+      | [a, b] =>
+        let a' : Handle := if which = 1 then a else { a with tracked := tr }
+        let b' : Handle := if which = 0 then b else { b with tracked := tr }
+        pure ({ σ with layers := insert σ.layers l (setLayerParams lay [a', b']) }, .ok)
+      | _ => throw .modelGap
+    | none => throw .modelGap
   | .lfwd w l a => do
     match lookup σ.layers l with
     | some lay => bindShow w (layerForward σ lay (← σ.get a))
